@@ -1,11 +1,11 @@
 (* C09 — Polyline is an immutable value whose edits match a plain list-of-points model.
-   Only statements; each closed by `exact <lemma>` from proofs/P_polyline_ops.v.
-   code side  (c_*, edges_for, code_impl): code-shaped model of polliwog/polyline/_polyline_object.py and _edges.py,
-              with fixes/C09-insertion-index-maps.diff applied;
+   Only statements; each closed by `exact <lemma>` from proofs/P_polyline_ops.v / P_polyline_insert.v.
+   code side  (c_*, edges_for, code_impl): code-shaped model of polliwog/polyline/_polyline_object.py and _edges.py
+              (with_insertions as fixed by commit "fix: with_insertions index maps", fixes/C09-insertion-index-maps.diff);
    spec side  (s_*, spec_*, spec_impl): the same operations on an ordered list of points.
    Immutability / aliasing (write flags, shared memory, receiver unchanged in memory) is not a Gallina notion:
    it is asserted by the correspondence harness on every call (validated, not proved); what IS proved here is
-   that no operation of either model changes or removes an existing value (C09_pool_only_grows). *)
+   that no operation of the model changes or removes an existing value (C09_pool_only_grows). *)
 From Coq Require Import ZArith Reals List Bool.
 From PW Require Import Num NumR Vec NpList Result.
 From PW.model Require Import M_polyline_base M_polyline_spec M_polyline_ops.
@@ -17,7 +17,7 @@ Theorem C09_edges_spec : forall n closed k,
   nth_error (edges_for n closed) k =
   if (S k <? n)%nat then Some (k, S k)
   else if closed && (S k =? n)%nat then Some (k, 0%nat) else None.
-Proof. intros. rewrite edges_refines. apply spec_edges_nth. Qed.
+Proof. exact edges_nth. Qed.
 
 (* ---- every operation refines the list specification, for all polylines and all arguments ------------ *)
 Theorem C09_constructor_refines_spec : forall (v : list (vec3 R)) c, c_new v c = s_new v c.
@@ -33,105 +33,100 @@ Theorem C09_sectioned_refines_spec : forall (p : polyline R) bps, c_sectioned p 
 Proof. exact sectioned_refines. Qed.
 Theorem C09_join_refines_spec : forall (ps : list (polyline R)) c, c_join ps c = s_join ps c.
 Proof. exact join_refines. Qed.
+(* with_insertions (stable argsort, scatter of positions, searchsorted side="right", np.insert's fill of the new array):
+   the new vertices and BOTH index maps equal the stable-insertion specification and its counting maps
+   (original vertex i -> i + #{j : idx_j <= i}; inserted point j -> idx_j + #{k : idx_k < idx_j} + #{k < j : idx_k = idx_j}),
+   for every polyline, every number of points and every index vector (repeated / end / negative positions; errors by class) *)
+Theorem C09_with_insertions_refines_spec : forall (p : polyline R) pts idx, c_insert p pts idx = s_insert p pts idx.
+Proof. exact insert_refines. Qed.
 Theorem C09_index_of_vertex_refines_spec : forall p pt, c_index_of ROps p pt = s_index_of ROps p pt.
 Proof. exact index_of_refines. Qed.
+(* aligned_with: vg.project / vg.scale_factor (with their NaN outcomes for a zero vector / zero projection) flip
+   exactly when extent . vector < 0 *)
+Theorem C09_aligned_with_refines_spec : forall (p : polyline R) v, c_aligned ROps p v = s_aligned ROps p v.
+Proof. exact aligned_refines. Qed.
 Theorem C09_apex_refines_spec : forall p ax, c_apex ROps p ax = s_apex ROps p ax.
 Proof. exact apex_refines. Qed.
 Theorem C09_bounding_box_refines_spec : forall p, c_bbox ROps p = s_bbox ROps p.
 Proof. exact bbox_refines. Qed.
 Theorem C09_len_num_v_num_e_refine_spec : forall p : polyline R, c_len p = s_len p.
 Proof. exact len_refines. Qed.
-(* aligned_with: proved for closed polylines (ValueError) and fewer than two vertices (unchanged); MISSING: the
-   general case, i.e. that vg.project / vg.scale_factor (with their NaN outcomes) flip exactly when
-   extent . vector < 0 — validated by the correspondence on sampled inputs only *)
-Theorem C09_aligned_with_refines_spec_partial : forall (p : polyline R) v,
-  pclosed p = true \/ (length (pv p) < 2)%nat -> c_aligned ROps p v = s_aligned ROps p v.
-Proof. exact aligned_refines_degenerate. Qed.
-(* with_insertions (fixed code: stable argsort, scatter of positions, searchsorted side="right", np.insert's fill):
-   the new vertices and BOTH index maps equal the stable-insertion specification and its counting maps, for every
-   polyline, every number of points and every index vector (repeated / end / negative positions; errors by class) *)
-Theorem C09_with_insertions_refines_spec : forall (p : polyline R) pts idx, c_insert p pts idx = s_insert p pts idx.
-Proof. exact insert_refines. Qed.
 
 (* ---- what the specification says, declaratively ----------------------------------------------------------- *)
-(* rolled: for every integer k, new vertex i is old vertex (i + k) mod n, and the edge mapping is that index;
-   hence each rolled edge starts at the start vertex of the original edge it is mapped to.
-   MISSING for the full `original.segments[mapping] = rolled.segments`: the same statement for the end vertex *)
-Theorem C09_rolled_edge_mapping_partial : forall (v : list (vec3 R)) (k : Z) i, (i < length v)%nat ->
+(* rolled, every integer k: new vertex i is old vertex (i + k) mod n and the edge mapping is that index ... *)
+Theorem C09_rolled_vertex_and_mapping : forall (v : list (vec3 R)) (k : Z) i, (i < length v)%nat ->
   nth_error (spec_rot_map k (length v)) i = Some (Z.to_nat ((Z.of_nat i + k) mod Z.of_nat (length v))) /\
   nth_error (spec_rot k v) i = nth_error v (Z.to_nat ((Z.of_nat i + k) mod Z.of_nat (length v))).
-Proof.
-  intros v k i H. split; [|apply spec_rot_nth; exact H].
-  unfold spec_rot_map. rewrite nth_error_map, nth_error_seq' by exact H. reflexivity.
-Qed.
-(* index_of_vertex returns the lowest index of a vertex within atol of the point, ValueError if there is none *)
+Proof. exact rolled_vertex_and_map. Qed.
+(* ... and original.segments[edge_mapping] = rolled.segments (both end points of every edge, closing edge included) *)
+Theorem C09_rolled_edge_mapping_spec : forall (v : list (vec3 R)) (k : Z),
+  map (nth_error (segments v true)) (spec_rot_map k (length v)) = map Some (segments (spec_rot k v) true).
+Proof. exact rolled_segments. Qed.
+(* index_of_vertex returns the lowest index of a vertex within atol of the point; ValueError iff there is none *)
 Theorem C09_index_of_vertex_lowest : forall (p : polyline R) pt j, s_index_of ROps p pt = Ok j ->
   (exists x, nth_error (pv p) j = Some x /\ vclose8 ROps x pt = true) /\
   (forall k y, (k < j)%nat -> nth_error (pv p) k = Some y -> vclose8 ROps y pt = false).
-Proof.
-  intros p pt j H. unfold s_index_of in H. destruct (spec_find_from ROps 0 (pv p) pt) eqn:E; [|discriminate].
-  injection H as ->. apply spec_find_lowest in E. rewrite Nat.sub_0_r in E. exact (proj2 E).
-Qed.
+Proof. exact index_of_lowest. Qed.
+Theorem C09_index_of_vertex_none : forall (p : polyline R) pt, s_index_of ROps p pt = Raise ValueError <->
+  forall x, In x (pv p) -> vclose8 ROps x pt = false.
+Proof. exact index_of_none. Qed.
 (* apex is a vertex with the largest coordinate along the axis *)
 Theorem C09_apex_is_max : forall (p : polyline R) ax x, s_apex ROps p ax = Ok x ->
   In x (pv p) /\ forall y, In y (pv p) -> (vdot ROps y ax <= vdot ROps x ax)%R.
-Proof.
-  intros p ax x H. unfold s_apex in H. destruct (spec_apex ROps (pv p) ax) as [[y m]|] eqn:E; [|discriminate].
-  injection H as ->. destruct (spec_apex_max ax _ _ _ E) as [-> [Hin Hmax]]. split; assumption.
-Qed.
+Proof. exact apex_is_max. Qed.
 (* the bounding box (origin, size) encloses every vertex *)
 Theorem C09_bounding_box_encloses : forall (p : polyline R) o sz y, s_bbox ROps p = Some (o, sz) -> In y (pv p) ->
   vle o y /\ vle y (vadd ROps o sz).
 Proof. exact bbox_encloses. Qed.
-(* insertion index map of the original vertices, any sizes, repeated and end positions included:
+(* the map of the original vertices really points at them, any sizes, repeated and end positions included:
    vertex i is found at position i + #{j : idx_j <= i} of the new polyline, and that is what the map says *)
 Theorem C09_insert_original_vertices_map : forall (v : list (vec3 R)) idx pts i x,
   length idx = length pts -> nth_error v i = Some x ->
   nth_error (spec_orig_map (length v) idx) i = Some (i + count_nat (fun j => j <=? i)%nat idx)%nat /\
   nth_error (spec_insert v idx pts) (i + count_nat (fun j => j <=? i)%nat idx) = Some x.
-Proof. intros. apply spec_orig_map_points; assumption. Qed.
+Proof. exact spec_orig_map_points. Qed.
+(* likewise the map of the inserted points: the j-th given point (index idx_j in 0..num_v) is found at position
+   idx_j + #{k : idx_k < idx_j} + #{k < j : idx_k = idx_j} of the new polyline, and that is what the map says *)
+Theorem C09_insert_inserted_points_map : forall (v : list (vec3 R)) idx pts j a x,
+  length idx = length pts -> nth_error idx j = Some a -> nth_error pts j = Some x -> (a <= length v)%nat ->
+  nth_error (spec_ins_map idx) j = Some (spec_ins_pos idx j a) /\
+  nth_error (spec_insert v idx pts) (spec_ins_pos idx j a) = Some x.
+Proof. exact spec_ins_map_points. Qed.
 
 (* ---- histories ------------------------------------------------------------------------------------------------ *)
-(* every finite sequence of operations, each applied to results of earlier ones, gives the same values and the same
-   errors in the code-shaped model and in the list specification.  _partial: histories made of the operations whose
-   refinement is proved above for all arguments (everything except with_insertions and aligned_with, see the two
-   _partial theorems), slice bounds within 0..num_v *)
-Theorem C09_history_refines_spec_partial : forall ops (pl : list (polyline R)),
-  forallb op_supported ops = true -> history_in_range (spec_impl ROps) pl ops ->
+(* every finite sequence of the listed operations (all thirteen kinds), each applied to results of earlier ones, with
+   slice bounds within 0..num_v (roll amounts and insertion indices unrestricted), gives the same values and the
+   same errors in the code-shaped model and in the list specification *)
+Theorem C09_history_refines_spec : forall ops (pl : list (polyline R)),
+  history_in_range (spec_impl ROps) pl ops ->
   run (code_impl ROps) pl ops = run (spec_impl ROps) pl ops.
 Proof. exact history_refines. Qed.
 (* an operation that raises leaves everything unchanged; no operation changes or removes an existing polyline *)
 Theorem C09_errors_leave_unchanged : forall (pl : list (polyline R)) o e,
   snd (step (code_impl ROps) pl o) = ObRaise e -> fst (step (code_impl ROps) pl o) = pl.
-Proof. intros. eapply errors_leave_unchanged; eassumption. Qed.
+Proof. exact code_errors_leave_unchanged. Qed.
 Theorem C09_pool_only_grows : forall (pl : list (polyline R)) o,
   exists news, fst (step (code_impl ROps) pl o) = pl ++ news.
-Proof. intros. apply pool_only_grows. Qed.
+Proof. exact code_pool_only_grows. Qed.
 (* the operations undefined for the polyline's kind raise ValueError / NotImplementedError *)
 Theorem C09_undefined_operations_raise : forall (p : polyline R) k bps s t v,
   (pclosed p = false -> c_rolled p k = Raise ValueError) /\
   (pclosed p = true -> c_sectioned p bps = Raise NotImplementedError /\ c_aligned ROps p v = Raise ValueError) /\
   (pclosed p = false -> (t <= s)%nat -> c_sliced p s t = Raise ValueError) /\
   c_join (F:=R) [] true = Raise ValueError /\ c_join [p; MkPolyline (pv p) true] false = Raise ValueError.
-Proof.
-  intros p k bps s t v. unfold c_rolled, c_sectioned, c_aligned, c_sliced, c_join. repeat split.
-  - intros ->. reflexivity.
-  - rewrite H. reflexivity.
-  - rewrite H. reflexivity.
-  - intros -> H. apply Nat.leb_le in H. rewrite H. reflexivity.
-  - cbn. rewrite orb_true_r. reflexivity.
-Qed.
+Proof. exact undefined_operations_raise. Qed.
 
-(* non-vacuity: a history with in-range arguments exists and both models agree on it by computation *)
+(* non-vacuity: a history with in-range arguments exists *)
 Example C09_history_inhabited :
-  history_in_range (spec_impl ROps) [] [OpNew [V3 0 0 0; V3 1 0 0; V3 1 1 0]%R true; OpRolled 0 (-4); OpSliced 1 2 1; OpLen 2].
+  history_in_range (spec_impl ROps) []
+    [OpNew [V3 0 0 0; V3 1 0 0; V3 1 1 0]%R true; OpRolled 0 (-4); OpSliced 1 2 1; OpInsert 2 [V3 5 5 5]%R [2%Z]; OpLen 3].
 Proof. cbn. repeat split; reflexivity. Qed.
 
 Definition C09_all := (C09_edges_spec, C09_constructor_refines_spec, C09_flipped_refines_spec, C09_rolled_refines_spec,
   C09_sliced_at_indices_refines_spec, C09_sectioned_refines_spec, C09_join_refines_spec,
-  C09_index_of_vertex_refines_spec, C09_apex_refines_spec, C09_bounding_box_refines_spec,
-  C09_len_num_v_num_e_refine_spec, C09_aligned_with_refines_spec_partial, C09_with_insertions_refines_spec,
-  C09_rolled_edge_mapping_partial, C09_index_of_vertex_lowest, C09_apex_is_max, C09_bounding_box_encloses,
-  C09_insert_original_vertices_map, C09_history_refines_spec_partial, C09_errors_leave_unchanged,
-  C09_pool_only_grows, C09_undefined_operations_raise).
+  C09_with_insertions_refines_spec, C09_index_of_vertex_refines_spec, C09_aligned_with_refines_spec,
+  C09_apex_refines_spec, C09_bounding_box_refines_spec, C09_len_num_v_num_e_refine_spec,
+  C09_rolled_vertex_and_mapping, C09_rolled_edge_mapping_spec, C09_index_of_vertex_lowest, C09_index_of_vertex_none,
+  C09_apex_is_max, C09_bounding_box_encloses, C09_insert_original_vertices_map, C09_insert_inserted_points_map, C09_history_refines_spec,
+  C09_errors_leave_unchanged, C09_pool_only_grows, C09_undefined_operations_raise).
 Print Assumptions C09_all.
